@@ -152,11 +152,11 @@ Definition ex_ok (x : name) : bool := true.
 Definition ex_sub (a b : positive) : bool := Pos.eqb a b.
 Definition ex_int : ty := TCls 1 [].
 Definition ex_nodes (tg : list name) : list vnode :=
-  [ mk_vnode 1 VKFunc [10] [11] [] [] [] false [(10, ex_int)] [(11, ex_int)];
-    mk_vnode 2 (VKRoute false) [11] [] [] tg [] false [(11, ex_int)] [];
-    mk_vnode 3 VKFunc [11] [12] [] [] [] false [(11, ex_int)] [(12, ex_int)];
-    mk_vnode 4 VKFunc [11] [12] [] [] [] false [(11, ex_int)] [(12, ex_int)];
-    mk_vnode 5 VKFunc [12] [13] [] [] [] false [(12, ex_int)] [(13, ex_int)] ]%positive.
+  [ mk_vnode 1 VKFunc [10] [11] [] [] [] false [(10, [Some ex_int])] [(11, [Some ex_int])];
+    mk_vnode 2 (VKRoute false) [11] [] [] tg [] false [(11, [Some ex_int])] [];
+    mk_vnode 3 VKFunc [11] [12] [] [] [] false [(11, [Some ex_int])] [(12, [Some ex_int])];
+    mk_vnode 4 VKFunc [11] [12] [] [] [] false [(11, [Some ex_int])] [(12, [Some ex_int])];
+    mk_vnode 5 VKFunc [12] [13] [] [] [] false [(12, [Some ex_int])] [(13, [Some ex_int])] ]%positive.
 Definition ex_graph (tg : list name) : vgraph := mk_vgraph (ex_nodes tg) None None true.
 
 Example C19_example_wellformed : WF ex_ok ex_ok 99%positive ex_sub 50%positive (ex_graph [3; 4]%positive).
